@@ -15,6 +15,10 @@ def run(tier, replay=None):
                      "for requests before availabilityStartTime only the status 425 is demanded"]
     c.trusted = ["asset generator ground truth / independent VoD parse", "TLC"]
     c.model("LiveTimeline_MC", f"LiveTimeline_{tier}.cfg", workers=4, required_actions=("Tick",))
+    if tier == "thorough":
+        # unbounded: contiguity across the loop wrap, monotone availability and status, and the pair arithmetic every
+        # timeline trace specification relies on (TLAPS, for any N, durations > 0, any integer loop count)
+        c.proofs(["time_tlaps", "livetimeline_tlaps"])
     drive = vlib.build_harness(cmd="c04")
     trace = c.work / "c04.ndjson"
     args = ["-out", trace, "-work", c.work, "-seed", c.seed] + (["-thorough"] if tier == "thorough" else [])
